@@ -2,7 +2,7 @@
   C04 — `rotate_count`: connecting the sublattice-index theorem (`rep_card`, C04_Index) to the model.
   * algebra: the filter of `rotateRaw` applied to replica `r` of atom `a` is `Rep U (offset a) (shiftOf r)`
     (`keptPred_imageOf`), where `offset` = relative position in the old cell + fractional part of the origin;
-  * coverage: every representative of an offset in `[0,2)³` lies inside the multiplier ranges
+  * coverage: every representative of an offset in `(-1,2)³` lies inside the multiplier ranges
     `(min corner - 1, max corner + 1)` of the bounding supercell (`rep_in_bounds`);
   * counting: the kept images of one atom are in bijection with the representatives (`imagesOf_length`),
     they are pairwise distinct (`imagesOf_nodup`) and none is missed (`imagesOf_complete`);
@@ -133,7 +133,7 @@ theorem mul_ge_min (t : K) (u : Int) (h0 : 0 ≤ t) (h1 : t < 1) :
 
 /-- one axis: `n = Σ tᵢ uᵢ - s` with `t ∈ [0,1)³`, `-1 ≤ s ≤ 2`… is within `[Σ min(0,uᵢ) - 1, Σ max(0,uᵢ)]`. -/
 theorem axis_bound (t0 t1 t2 s : K) (u0 u1 u2 n : Int)
-    (h0 : 0 ≤ t0 ∧ t0 < 1) (h1 : 0 ≤ t1 ∧ t1 < 1) (h2 : 0 ≤ t2 ∧ t2 < 1) (hs : 0 ≤ s ∧ s < 2)
+    (h0 : 0 ≤ t0 ∧ t0 < 1) (h1 : 0 ≤ t1 ∧ t1 < 1) (h2 : 0 ≤ t2 ∧ t2 < 1) (hs : -1 < s ∧ s < 2)
     (e : s + (n : K) = t0 * (u0 : K) + t1 * (u1 : K) + t2 * (u2 : K)) :
     min 0 u0 + min 0 u1 + min 0 u2 - 1 ≤ n ∧ n ≤ max 0 u0 + max 0 u1 + max 0 u2 := by
   obtain ⟨a0, b0⟩ := mul_ge_min t0 u0 h0.1 h0.2
@@ -144,9 +144,10 @@ theorem axis_bound (t0 t1 t2 s : K) (u0 u1 u2 n : Int)
       push_cast; push_cast at a0 a1 a2; linarith [hs.2]
     have := Int.cast_lt.mp this
     omega
-  · have : (n : K) ≤ ((max 0 u0 + max 0 u1 + max 0 u2 : Int) : K) := by
+  · have : (n : K) < ((max 0 u0 + max 0 u1 + max 0 u2 + 1 : Int) : K) := by
       push_cast; push_cast at b0 b1 b2; linarith [hs.1]
-    exact Int.cast_le.mp this
+    have := Int.cast_lt.mp this
+    omega
 
 theorem rotateSizes_bounds (U : M3 Int) :
     (rotateSizes U).1.lo ≤ min 0 U.r0.x + min 0 U.r1.x + min 0 U.r2.x - 1 ∧
@@ -159,10 +160,10 @@ theorem rotateSizes_bounds (U : M3 Int) :
   simp only [rotateSizes, corners, minOf, maxOf, List.map, List.foldl, List.headD, V3.add_x', V3.add_y', V3.add_z']
   omega
 
-/-- **coverage**: a representative of an offset `s ∈ [0,2)³` (atom inside the box plus the fractional part of
-    the origin) lies inside the multiplier ranges of the bounding supercell. -/
+/-- **coverage**: a representative of an offset `s ∈ (-1,2)³` (atom inside the box plus the reduced origin)
+    lies inside the multiplier ranges of the bounding supercell. -/
 theorem rep_in_bounds (U : M3 Int) (hU : M3.det U ≠ 0) (s : V3 K)
-    (hs : (0 ≤ s.x ∧ s.x < 2) ∧ (0 ≤ s.y ∧ s.y < 2) ∧ (0 ≤ s.z ∧ s.z < 2)) (n : V3 Int) (hn : Rep U s n) :
+    (hs : (-1 < s.x ∧ s.x < 2) ∧ (-1 < s.y ∧ s.y < 2) ∧ (-1 < s.z ∧ s.z < 2)) (n : V3 Int) (hn : Rep U s n) :
     ((rotateSizes U).1.lo ≤ n.x ∧ n.x < (rotateSizes U).1.hi) ∧
     ((rotateSizes U).2.1.lo ≤ n.y ∧ n.y < (rotateSizes U).2.1.hi) ∧
     ((rotateSizes U).2.2.lo ≤ n.z ∧ n.z < (rotateSizes U).2.2.hi) := by
@@ -181,10 +182,10 @@ theorem rep_in_bounds (U : M3 Int) (hU : M3.det U ≠ 0) (s : V3 K)
 
 /-! ### the images of one atom in `rotateRaw` -/
 
-/-- the Cartesian shift `⌊origin·V⁻¹⌋·V` of `rotateRaw`. -/
+/-- the Cartesian shift `rint(origin·V⁻¹)·V` (nearest lattice vector, `⌊x + 1/2⌋`) of `rotateRaw`. -/
 def originShift (fl : K → Int) (b : Box K) : V3 K :=
-  M3.vecMul ⟨((fl (0 - (b.cartToRel ⟨0, 0, 0⟩).x) : Int) : K), ((fl (0 - (b.cartToRel ⟨0, 0, 0⟩).y) : Int) : K),
-             ((fl (0 - (b.cartToRel ⟨0, 0, 0⟩).z) : Int) : K)⟩ b.vects
+  M3.vecMul ⟨((fl (0 - (b.cartToRel ⟨0, 0, 0⟩).x + 1 / ((2 : Int) : K)) : Int) : K), ((fl (0 - (b.cartToRel ⟨0, 0, 0⟩).y + 1 / ((2 : Int) : K)) : Int) : K),
+             ((fl (0 - (b.cartToRel ⟨0, 0, 0⟩).z + 1 / ((2 : Int) : K)) : Int) : K)⟩ b.vects
 
 /-- replica `r` of atom `a` of the bounding supercell, as `rotateRaw` positions it. -/
 def imageOf (fl : K → Int) (b : Box K) (U : M3 Int) (a : Atom K) (r : Nat × Nat × Nat) : Atom K :=
@@ -216,12 +217,13 @@ theorem rotateRaw_singleton (fl : K → Int) (b : Box K) (U : M3 Int) (a : Atom 
   rw [rotateRaw_eq fl b U [a] hU, imagesOf]
   simp only [List.map_cons, List.map_nil, flatMap_singleton_eq_map]
 
-/-- offset of an atom at `p`: its relative position in the old cell plus the fractional part of the box origin
-    (in cell units); inside `[0,2)³` for an atom inside the box. -/
+/-- offset of an atom at `p`: its relative position in the old cell plus the box origin (in cell units) reduced to
+    `[-1/2, 1/2)` by the nearest lattice vector; inside `[-1/2, 3/2)³ ⊂ (-1, 2)³` for an atom inside the box
+    (far faces included). -/
 noncomputable def offset (b : Box K) (p : V3 K) : V3 K :=
-  b.cartToRel p + ⟨(0 - (b.cartToRel ⟨0, 0, 0⟩).x) - ⌊0 - (b.cartToRel ⟨0, 0, 0⟩).x⌋,
-                   (0 - (b.cartToRel ⟨0, 0, 0⟩).y) - ⌊0 - (b.cartToRel ⟨0, 0, 0⟩).y⌋,
-                   (0 - (b.cartToRel ⟨0, 0, 0⟩).z) - ⌊0 - (b.cartToRel ⟨0, 0, 0⟩).z⌋⟩
+  b.cartToRel p + ⟨(0 - (b.cartToRel ⟨0, 0, 0⟩).x) - ⌊0 - (b.cartToRel ⟨0, 0, 0⟩).x + 1 / ((2 : Int) : K)⌋,
+                   (0 - (b.cartToRel ⟨0, 0, 0⟩).y) - ⌊0 - (b.cartToRel ⟨0, 0, 0⟩).y + 1 / ((2 : Int) : K)⌋,
+                   (0 - (b.cartToRel ⟨0, 0, 0⟩).z) - ⌊0 - (b.cartToRel ⟨0, 0, 0⟩).z + 1 / ((2 : Int) : K)⌋⟩
 
 /-- lattice shift (in old-cell units) of replica `r`. -/
 def shiftOf (U : M3 Int) (r : Nat × Nat × Nat) : V3 Int :=
@@ -234,17 +236,18 @@ theorem rotateSizes_mult_pos (U : M3 Int) :
   omega
 
 theorem offset_range (b : Box K) (p : V3 K) (hp : InBox (b.cartToRel p)) :
-    (0 ≤ (offset b p).x ∧ (offset b p).x < 2) ∧ (0 ≤ (offset b p).y ∧ (offset b p).y < 2) ∧
-    (0 ≤ (offset b p).z ∧ (offset b p).z < 2) := by
+    (-1 < (offset b p).x ∧ (offset b p).x < 2) ∧ (-1 < (offset b p).y ∧ (offset b p).y < 2) ∧
+    (-1 < (offset b p).z ∧ (offset b p).z < 2) := by
   obtain ⟨a1, a2, a3, a4, a5, a6⟩ := hp
-  simp only [offset, V3.add_def]
+  have hh : (1 : K) / ((2 : Int) : K) = 1 / 2 := by norm_num
+  simp only [offset, V3.add_def, hh]
   refine ⟨⟨?_, ?_⟩, ⟨?_, ?_⟩, ⟨?_, ?_⟩⟩
-  · linarith [Int.floor_le (0 - (b.cartToRel ⟨0, 0, 0⟩).x)]
-  · linarith [Int.lt_floor_add_one (0 - (b.cartToRel ⟨0, 0, 0⟩).x)]
-  · linarith [Int.floor_le (0 - (b.cartToRel ⟨0, 0, 0⟩).y)]
-  · linarith [Int.lt_floor_add_one (0 - (b.cartToRel ⟨0, 0, 0⟩).y)]
-  · linarith [Int.floor_le (0 - (b.cartToRel ⟨0, 0, 0⟩).z)]
-  · linarith [Int.lt_floor_add_one (0 - (b.cartToRel ⟨0, 0, 0⟩).z)]
+  · linarith [Int.floor_le (0 - (b.cartToRel ⟨0, 0, 0⟩).x + 1 / 2)]
+  · linarith [Int.lt_floor_add_one (0 - (b.cartToRel ⟨0, 0, 0⟩).x + 1 / 2)]
+  · linarith [Int.floor_le (0 - (b.cartToRel ⟨0, 0, 0⟩).y + 1 / 2)]
+  · linarith [Int.lt_floor_add_one (0 - (b.cartToRel ⟨0, 0, 0⟩).y + 1 / 2)]
+  · linarith [Int.floor_le (0 - (b.cartToRel ⟨0, 0, 0⟩).z + 1 / 2)]
+  · linarith [Int.lt_floor_add_one (0 - (b.cartToRel ⟨0, 0, 0⟩).z + 1 / 2)]
 
 /-- the position of image `r`, in old-cell units about the Cartesian origin, is `offset + shiftOf r`. -/
 theorem imageOf_pos (fl : K → Int) (hfl : ∀ x, fl x = ⌊x⌋) (b : Box K) (hV : M3.det b.vects ≠ 0) (U : M3 Int)
@@ -382,7 +385,7 @@ theorem imagesOf_complete (fl : K → Int) (hfl : ∀ x, fl x = ⌊x⌋) (b : Bo
     (hq : InCell ((⟨newVects U b.vects, ⟨0, 0, 0⟩⟩ : Box K).cartToRel (a.pos + M3.vecMul (castV n) b.vects))) :
     ∃ a' ∈ imagesOf fl b U a, a'.pos = a.pos + M3.vecMul (castV n) b.vects ∧ a'.atype = a.atype ∧ a'.extra = a.extra := by
   -- the integer shift of `rotateRaw`
-  set f : V3 Int := ⟨⌊0 - (b.cartToRel ⟨0, 0, 0⟩).x⌋, ⌊0 - (b.cartToRel ⟨0, 0, 0⟩).y⌋, ⌊0 - (b.cartToRel ⟨0, 0, 0⟩).z⌋⟩
+  set f : V3 Int := ⟨⌊0 - (b.cartToRel ⟨0, 0, 0⟩).x + 1 / ((2 : Int) : K)⌋, ⌊0 - (b.cartToRel ⟨0, 0, 0⟩).y + 1 / ((2 : Int) : K)⌋, ⌊0 - (b.cartToRel ⟨0, 0, 0⟩).z + 1 / ((2 : Int) : K)⌋⟩
     with hf
   have hpos : a.pos + M3.vecMul (castV n) b.vects = M3.vecMul (offset b a.pos + castV (n + f)) b.vects := by
     have hp := relToCart_cartToRel b hV a.pos
